@@ -227,4 +227,137 @@ theorem cost_le (e : OpTree) : ∀ m f, cost e ≤ 6 * (render m f e).length := 
     have := ih 0 0
     rw [render_assign]; simp only [cost]; split <;> simp <;> omega
 
+/-! ### the generalised round trip -/
+
+theorem follow_rparen (f : Nat) (rest : List Tok) : Follow f (.rparen :: rest) := by simp [Follow]
+
+/-- Parsing the rendering of `e` (made for minimum precedence `m` and a follower of priority ≤ `f`)
+in front of `rest` brings the parser to exactly the state "`e` is the expression so far, `rest` is
+left, the loop runs at minimum `m`" — whatever that state then does (`res`). -/
+theorem roundtrip_gen (e : OpTree) :
+    ∀ (m f : Nat) (rest : List Tok) (n : Nat) (res : OpTree × List Tok) (N : Nat),
+      Follow f rest → parseCont n m e rest = some res → n + cost e ≤ N →
+      parseStart N m (render m f e ++ rest) = some res := by
+  induction e with
+  | atom a =>
+    intro m f rest n res N _ hc hN
+    have hn := parseCont_pos hc
+    simp only [cost] at hN
+    obtain ⟨N', rfl⟩ : ∃ N', N = N' + 2 := ⟨N - 2, by omega⟩
+    rw [parseStart]; unfold startStep
+    have h1 : parseTerm (N' + 1) (render m f (.atom a) ++ rest) = some (.atom a, rest) := by
+      rw [parseTerm]; cases a <;> rfl
+    rw [h1]; exact parseCont_mono (by omega) hc
+  | neg e ih =>
+    intro m f rest n res N _ hc hN
+    have hn := parseCont_pos hc
+    simp only [cost] at hN
+    obtain ⟨N', rfl⟩ : ∃ N', N = N' + 3 := ⟨N - 3, by omega⟩
+    rw [parseStart]; unfold startStep
+    rcases render_neg m f e with ⟨x, rfl, h⟩ | h
+    · rw [h]
+      have h1 : parseTerm (N' + 2) ([.op .Subtract, .id x] ++ rest)
+          = some (.neg (.atom (.id x)), rest) := by
+        simp [parseTerm, termStep]
+      rw [h1]; exact parseCont_mono (by omega) hc
+    · rw [h]
+      have hbody : parseStart N' 0 (render 0 0 e ++ (.rparen :: rest)) = some (e, .rparen :: rest) :=
+        ih 0 0 (.rparen :: rest) 1 _ N' (follow_rparen 0 rest)
+          (parseCont_stop0 (follow_rparen 0 rest) 0 0 e) (by omega)
+      have h1 : parseTerm (N' + 2) ([.op .Subtract, .lparen] ++ render 0 0 e ++ [.rparen] ++ rest)
+          = some (.neg e, rest) := by
+        have hl : [Tok.op .Subtract, .lparen] ++ render 0 0 e ++ [.rparen] ++ rest
+            = .op .Subtract :: .lparen :: (render 0 0 e ++ .rparen :: rest) := by simp
+        rw [hl]
+        simp [parseTerm, termStep, hbody]
+      rw [h1]; exact parseCont_mono (by omega) hc
+  | not e ih =>
+    intro m f rest n res N hf hc hN
+    have hn := parseCont_pos hc
+    simp only [cost] at hN
+    -- the unparenthesised form, for any follower that stops everything
+    have A : ∀ (m' : Nat) (rest' : List Tok) (n' : Nat) (res' : OpTree × List Tok) (K : Nat),
+        Follow 0 rest' → parseCont n' m' (.not e) rest' = some res' → n' + cost e + 3 ≤ K →
+        parseStart K m' (.not :: render 0 0 e ++ rest') = some res' := by
+      intro m' rest' n' res' K hf' hc' hK
+      have hn' := parseCont_pos hc'
+      obtain ⟨K', rfl⟩ : ∃ K', K = K' + 2 := ⟨K - 2, by omega⟩
+      have hbody : parseStart K' 0 (render 0 0 e ++ rest') = some (e, rest') :=
+        ih 0 0 rest' 1 _ K' hf' (parseCont_stop0 hf' 0 0 e) (by omega)
+      rw [parseStart]; unfold startStep
+      have h1 : parseTerm (K' + 1) (.not :: render 0 0 e ++ rest') = some (.not e, rest') := by
+        simp [parseTerm, termStep, hbody]
+      rw [h1]; exact parseCont_mono (by omega) hc'
+    rw [render_not]
+    split
+    · rename_i h0; subst h0
+      exact A m rest n res N hf hc (by omega)
+    · have hb := A 0 (.rparen :: rest) 1 _ (N - 2) (follow_rparen 0 rest)
+        (parseCont_stop0 (follow_rparen 0 rest) 0 0 (.not e)) (by omega)
+      have hl : [Tok.lparen, .not] ++ render 0 0 e ++ [.rparen] ++ rest
+          = .lparen :: ((.not :: render 0 0 e) ++ .rparen :: rest) := by simp
+      rw [hl]
+      exact paren_wrap (by simpa using hb) hc (by omega) (by omega)
+  | assign x e ih =>
+    intro m f rest n res N hf hc hN
+    have hn := parseCont_pos hc
+    simp only [cost] at hN
+    have A : ∀ (m' : Nat) (rest' : List Tok) (n' : Nat) (res' : OpTree × List Tok) (K : Nat),
+        Follow 0 rest' → parseCont n' m' (.assign x e) rest' = some res' → n' + cost e + 4 ≤ K →
+        parseStart K m' ([.id x, .assign] ++ render 0 0 e ++ rest') = some res' := by
+      intro m' rest' n' res' K hf' hc' hK
+      have hres := parseCont_stop0_eq hf' hc'
+      subst hres
+      obtain ⟨K', rfl⟩ : ∃ K', K = K' + 3 := ⟨K - 3, by omega⟩
+      have hbody : parseStart K' 0 (render 0 0 e ++ rest') = some (e, rest') :=
+        ih 0 0 rest' 1 _ K' hf' (parseCont_stop0 hf' 0 0 e) (by omega)
+      rw [parseStart]; unfold startStep
+      have h1 : parseTerm (K' + 2) ([.id x, .assign] ++ render 0 0 e ++ rest')
+          = some (.atom (.id x), .assign :: (render 0 0 e ++ rest')) := by
+        simp [parseTerm, termStep]
+      rw [h1]
+      simp [parseCont, contStep, parseStart_mono (by omega : K' ≤ K' + 1) hbody]
+    rw [render_assign]
+    split
+    · rename_i h0; subst h0
+      exact A m rest n res N hf hc (by omega)
+    · have hb := A 0 (.rparen :: rest) 1 _ (N - 2) (follow_rparen 0 rest)
+        (parseCont_stop0 (follow_rparen 0 rest) 0 0 (.assign x e)) (by omega)
+      have hl : [Tok.lparen, .id x, .assign] ++ render 0 0 e ++ [.rparen] ++ rest
+          = .lparen :: (([.id x, .assign] ++ render 0 0 e) ++ .rparen :: rest) := by simp
+      rw [hl]
+      exact paren_wrap (by simpa using hb) hc (by omega) (by omega)
+  | bin o l r ihl ihr =>
+    intro m f rest n res N hf hc hN
+    have hn := parseCont_pos hc
+    simp only [cost] at hN
+    have A : ∀ (m' f' : Nat) (rest' : List Tok) (n' : Nat) (res' : OpTree × List Tok) (K : Nat),
+        m' ≤ lp o → f' < rp o → Follow f' rest' → parseCont n' m' (.bin o l r) rest' = some res' →
+        n' + cost l + cost r + 3 ≤ K →
+        parseStart K m' (render m' (lp o) l ++ [.op o] ++ render (rp o) f' r ++ rest') = some res' := by
+      intro m' f' rest' n' res' K hm hf1 hf' hc' hK
+      have hn' := parseCont_pos hc'
+      -- the right operand, parsed at minimum `rp o`, stops in front of `rest'`
+      have hr : parseStart (n' + cost r + 1) (rp o) (render (rp o) f' r ++ rest') = some (r, rest') :=
+        ihr (rp o) f' rest' 1 _ _ hf' (parseCont_stop hf' hf1 0 r) (by omega)
+      -- so the loop that has `l` and sees `o` builds `bin o l r` and goes on
+      have hl : parseCont (n' + cost r + 2) m' l (.op o :: (render (rp o) f' r ++ rest')) = some res' := by
+        rw [parseCont]; unfold contStep
+        simp [hm, hr]
+        exact parseCont_mono (by omega) hc'
+      have hlist : render m' (lp o) l ++ [.op o] ++ render (rp o) f' r ++ rest'
+          = render m' (lp o) l ++ (.op o :: (render (rp o) f' r ++ rest')) := by simp
+      rw [hlist]
+      exact ihl m' (lp o) _ _ res' K (by simp [Follow]) hl (by omega)
+    rw [render_bin]
+    split
+    · rename_i hcond
+      exact A m f rest n res N hcond.1 hcond.2 hf hc (by omega)
+    · have hb := A 0 0 (.rparen :: rest) 1 _ (N - 2) (Nat.zero_le _) (rp_pos o) (follow_rparen 0 rest)
+        (parseCont_stop0 (follow_rparen 0 rest) 0 0 (.bin o l r)) (by omega)
+      have hl : [Tok.lparen] ++ (render 0 (lp o) l ++ [.op o] ++ render (rp o) 0 r) ++ [.rparen] ++ rest
+          = .lparen :: ((render 0 (lp o) l ++ [.op o] ++ render (rp o) 0 r) ++ .rparen :: rest) := by simp
+      rw [hl]
+      exact paren_wrap (by simpa using hb) hc (by omega) (by omega)
+
 end KotoVerif.C01
